@@ -68,4 +68,23 @@ theorem openArgv_terminated (program : Str) (args : List Str) (streams : Nat) (e
   rw [upToNull_map_some args []]
   simp [envOf_eq]
 
+
+theorem find_envRemove (k : Str) (e : PEnv) (k' : Str) :
+    (envRemove k e).find? (fun kv => kv.1 == k') = if k' = k then none else e.find? (fun kv => kv.1 == k') := by
+  unfold envRemove
+  rw [List.find?_filter]
+  by_cases hkk : k' = k
+  · subst hkk
+    simp only [if_true]
+    apply List.find?_eq_none.mpr
+    intro a _
+    by_cases h : a.1 = k' <;> simp [h]
+  · simp only [hkk, if_false]
+    have : (fun a : Str × Str => decide ((a.1 != k) = true ∧ (a.1 == k') = true)) = (fun a => a.1 == k') := by
+      funext a
+      by_cases h : a.1 = k'
+      · simp [h, hkk]
+      · simp [h]
+    rw [this]
+
 end Nstd.Args
